@@ -64,7 +64,7 @@ def verify(name):
     # some demos still name the worktree they were written in (/tmp/wt-<property>): point that name at this scratch tree
     os.environ["REPROC_SRC"] = wt
     made_alias = []
-    for alias in ("/tmp/wt-" + m["property"], "/tmp/w3-" + m["property"]):
+    for alias in ["/tmp/%s-%s" % (pre, m["property"]) for pre in ("wt", "w3", "w4", "w5", "w6")]:
         if not os.path.exists(alias):
             os.symlink(wt, alias)
             made_alias.append(alias)
